@@ -54,10 +54,33 @@ def Val.num? : Val → Option Rat
   | .dec q _ => some q
   | _ => none
 
-/-- is the text a number the engine would read as one (used for numeric strings) -/
+/-- leading decimal digits of a character list, and the rest -/
+def takeDigits : List Char → List Char × List Char
+  | [] => ([], [])
+  | c :: r => if c.isDigit then let (d, rest) := takeDigits r; (c :: d, rest) else ([], c :: r)
+
+def digitsVal (ds : List Char) : Nat := ds.foldl (fun a c => 10 * a + (c.toNat - '0'.toNat)) 0
+
+/-- is the text a number the engine reads as one (numeric strings), and which: the grammar of the engine's
+`utils.FastParseFloat`, `[+-]digits[.digits][(e|E)[+-]digits]` with at least one mantissa digit — the one rule that the
+column statistics, the type consolidation of a block column and the search comparisons share -/
 def numericText? (s : String) : Option Rat :=
-  if s.isEmpty then none
-  else if s.all (fun c => c.isDigit || c == '.' || c == '-' || c == 'e' || c == '+') && s.any Char.isDigit then parseDec s else none
+  let cs := s.toList
+  let (neg, cs) : Bool × List Char := match cs with | '-' :: r => (true, r) | '+' :: r => (false, r) | _ => (false, cs)
+  let (ip, cs) := takeDigits cs
+  let (fp, cs) : List Char × List Char := match cs with | '.' :: r => takeDigits r | _ => ([], cs)
+  if ip.isEmpty && fp.isEmpty then none else
+  let mant : Rat := (digitsVal ip : Rat) + (digitsVal fp : Rat) / ((pow10 fp.length : Nat) : Rat)
+  let fin (q : Rat) : Option Rat := some (if neg then -q else q)
+  match cs with
+  | [] => fin mant
+  | e :: r =>
+    if e == 'e' || e == 'E' then
+      let (eneg, r) : Bool × List Char := match r with | '-' :: r' => (true, r') | '+' :: r' => (false, r') | _ => (false, r)
+      let (ed, rest) := takeDigits r
+      if ed.isEmpty || !rest.isEmpty then none
+      else fin (if eneg then mant / ((pow10 (digitsVal ed) : Nat) : Rat) else mant * ((pow10 (digitsVal ed) : Nat) : Rat))
+    else none
 
 /-! ### filters -/
 
@@ -230,6 +253,27 @@ def evalAgg (evs : List Event) : Agg → AggVal
 /-- group-by: events lacking any by-field are not grouped (Splunk semantics); each occurring key once -/
 def groupBy (evs : List Event) (bys : List String) : List (List String × List Event) :=
   let keyed := evs.filterMap (fun e => (bys.mapM (fun b => (e.get b).map Val.keyText)).map (fun k => (k, e)))
+  let keys := (keyed.map (·.1)).eraseDups
+  keys.map (fun k => (k, (keyed.filter (·.1 == k)).map (·.2)))
+
+/-! ### timechart (C04): `timechart span=<span> <aggs> [by f]` as the first stage, over the query range [start, end]
+
+The range is closed at both ends (the search stage matches `start ≤ ts ≤ end`).  Cells lie on the grid
+`start + k·span`; every matched event is counted in exactly the one cell whose span contains its timestamp. -/
+
+/-- the grid cell `[b, b + span)` that contains `ts` (for `start ≤ ts`, `0 < span`) -/
+def bucketOf (start span ts : Nat) : Nat := start + (ts - start) / span * span
+
+/-- closed range: the end point of the range, when it would open a cell of its own (it lies ON the grid), belongs to the
+last cell `[end − span, end]`; everywhere else the grid cell.  (The other reading — the end point opens the cell
+`[end, end + span)` — is `bucketOf` itself; the differential accepts both, see Oracle/E2E.lean.) -/
+def tcBucket (start end_ span ts : Nat) : Nat :=
+  if ts == end_ && start < end_ && (end_ - start) % span == 0 then end_ - span else bucketOf start span ts
+
+/-- cells of a timechart: (cell start, series) ↦ the matched events counted there.  Series: `some key` = the key text of
+the by-field's value (`some ""` when there is no by-field), `none` = the NULL series of the events lacking the by-field. -/
+def timechart (bucket : Nat → Nat) (evs : List Event) (by_ : Option String) : List ((Nat × Option String) × List Event) :=
+  let keyed := evs.map (fun e => ((bucket e.ts, match by_ with | none => some "" | some b => (e.get b).map Val.keyText), e))
   let keys := (keyed.map (·.1)).eraseDups
   keys.map (fun k => (k, (keyed.filter (·.1 == k)).map (·.2)))
 
